@@ -295,6 +295,7 @@ pub fn run_task(w: Arc<World>, ix: usize) -> i64 {
             let guards_ref = &mut guards;
             let acc_ref = &mut acc;
             thread::scope(|sc| {
+                let mut shandles: Vec<Option<thread::ScopedJoinHandle<'_, i64>>> = (0..wr.prog.tasks.len()).map(|_| None).collect();
                 for (n, op2) in code.iter().enumerate().take(j).skip(i + 1) {
                     let r = if op2.k == "sspawn" {
                         let child = op2.v as usize;
@@ -306,7 +307,11 @@ pub fn run_task(w: Arc<World>, ix: usize) -> i64 {
                         });
                         let tid: usize = h.thread().id().into();
                         *wr.threads[child].get() = Some(h.thread().clone());
+                        shandles[child] = Some(h);
                         tid as i64
+                    } else if op2.k == "join" && shandles[op2.v as usize].is_some() {
+                        // joining a scoped thread from inside the scope body
+                        shandles[op2.v as usize].take().unwrap().join().unwrap()
                     } else {
                         exec_op(&w, wr, ix, op2, guards_ref, *acc_ref)
                     };
@@ -552,6 +557,15 @@ fn exec_op<'a>(warc: &Arc<World>, w: &'a World, _ix: usize, op: &Op, guards: &mu
         "unlock" => {
             let g = guards[slot].take().expect("unlock: empty slot");
             drop(g);
+            0
+        }
+        // the holder panics while it holds the guard (the panic is caught inside the task): the lock is poisoned
+        "punlock" => {
+            let g = guards[slot].take().expect("punlock: empty slot");
+            let _ = std::panic::catch_unwind(std::panic::AssertUnwindSafe(move || {
+                let _g = g;
+                panic!("poison-by-panic");
+            }));
             0
         }
         "unlock_if" => match guards[slot].take() {
